@@ -250,6 +250,15 @@ def check_property(pid, tier='quick', seed=0, out=sys.stdout, src=SRC,
     """Run every rule of property `pid`.  Returns the exit status."""
     from . import rules  # noqa: F401  (registers the rules)
     t0 = time.time()
+    import signal
+
+    def _alarm(signum, frame):
+        raise AnalysisError('analysis exceeded its wall-clock budget')
+    try:
+        signal.signal(signal.SIGALRM, _alarm)
+        signal.alarm(240 if tier == 'quick' else 1500)
+    except ValueError:
+        pass            # not in the main thread
     try:
         if pid not in PROPERTY_RULES:
             raise AnalysisError('no rules registered for %s' % pid)
@@ -265,6 +274,10 @@ def check_property(pid, tier='quick', seed=0, out=sys.stdout, src=SRC,
         print('ANALYSIS-ERROR property=%s internal error:\n%s' % (
             pid, traceback.format_exc()), file=out)
         return 2
+    try:
+        signal.alarm(0)
+    except ValueError:
+        pass
     known = load_known()
     n_viol = 0
     n_known = 0
